@@ -561,6 +561,10 @@ class CallMixin:
             return self.call_contract(fv.info, node, st, want)
         if fv.kind == "model":
             return fv.info(self, st, node, want)
+        if fv.kind == "bound":
+            call = ast.Call(func=fv.info, args=node.args, keywords=node.keywords)
+            ast.copy_location(call, node)
+            return self.method_call(call, st, want)
         raise Unsupported(f"call of {fv.name} ({fv.kind})")
 
     def call_contract(self, c, node, st, want):
